@@ -179,6 +179,10 @@ where
     let recur = |a: &[A], ash: &[usize], b: &[B], bsh: &[usize], c: &mut [C]| {
         bin_pervade_recursive((a, ash), (b, bsh), c, a_fill, b_fill, f.clone(), env)
     };
+    // The rows of the longer argument, which may be empty rows that get filled
+    fn rows<T>(data: &[T], row_count: usize, row_len: usize) -> impl Iterator<Item = &[T]> {
+        (0..row_count).map(move |i| &data[i * row_len..(i + 1) * row_len])
+    }
     match (ash, bsh) {
         ([], []) => {
             let (a, b) = (a[0].clone(), b[0].clone());
@@ -242,19 +246,18 @@ where
                     let a_fill_row = vec![a_fill.value.clone(); a_row_len];
                     if a_fill.is_left() {
                         let a_iter = repeat_n(a_fill_row.as_slice(), *bl - *al)
-                            .chain(a.chunks_exact(a_row_len.max(1)));
+                            .chain(rows(a, *al, a_row_len));
                         for ((a, b), c) in a_iter
-                            .zip(b.chunks_exact(b_row_len))
+                            .zip(rows(b, *bl, b_row_len))
                             .zip(c.chunks_exact_mut(c_row_len))
                         {
                             recur(a, ash, b, bsh, c)?;
                         }
                     } else {
-                        let a_iter = a
-                            .chunks_exact(a_row_len.max(1))
-                            .chain(repeat(a_fill_row.as_slice()));
+                        let a_iter =
+                            rows(a, *al, a_row_len).chain(repeat(a_fill_row.as_slice()));
                         for ((a, b), c) in a_iter
-                            .zip(b.chunks_exact(b_row_len))
+                            .zip(rows(b, *bl, b_row_len))
                             .zip(c.chunks_exact_mut(c_row_len))
                         {
                             recur(a, ash, b, bsh, c)?;
@@ -267,7 +270,7 @@ where
                         }
                     }
                 } else {
-                    for (b, c) in b.chunks_exact(b_row_len).zip(c.chunks_exact_mut(c_row_len)) {
+                    for (b, c) in rows(b, *bl, b_row_len).zip(c.chunks_exact_mut(c_row_len)) {
                         recur(a, ash, b, bsh, c)?;
                     }
                 }
@@ -275,20 +278,16 @@ where
                 let b_fill_row = vec![b_fill.value.clone(); b_row_len];
                 if b_fill.is_left() {
                     let b_iter = repeat_n(b_fill_row.as_slice(), *al - *bl)
-                        .chain(b.chunks_exact(b_row_len.max(1)));
-                    for ((a, b), c) in a
-                        .chunks_exact(a_row_len)
+                        .chain(rows(b, *bl, b_row_len));
+                    for ((a, b), c) in rows(a, *al, a_row_len)
                         .zip(b_iter)
                         .zip(c.chunks_exact_mut(c_row_len))
                     {
                         recur(a, ash, b, bsh, c)?;
                     }
                 } else {
-                    let b_iter = b
-                        .chunks_exact(b_row_len.max(1))
-                        .chain(repeat(b_fill_row.as_slice()));
-                    for ((a, b), c) in a
-                        .chunks_exact(a_row_len)
+                    let b_iter = rows(b, *bl, b_row_len).chain(repeat(b_fill_row.as_slice()));
+                    for ((a, b), c) in rows(a, *al, a_row_len)
                         .zip(b_iter)
                         .zip(c.chunks_exact_mut(c_row_len))
                     {
@@ -302,7 +301,7 @@ where
                     }
                 }
             } else {
-                for (a, c) in a.chunks_exact(a_row_len).zip(c.chunks_exact_mut(c_row_len)) {
+                for (a, c) in rows(a, *al, a_row_len).zip(c.chunks_exact_mut(c_row_len)) {
                     recur(a, ash, b, bsh, c)?;
                 }
             }
